@@ -134,11 +134,271 @@ def native_extractors():
     return None
 
 
+# ----------------------------------------------------------------- runtime event monitor (property: observe_at) --
+EXTRACTORS = (("ms_modern.docx_extractor", "read_docx", ("modern_ms/headings.docx",)),
+              ("ms_modern.pptx_extractor", "read_pptx", ("modern_ms/pptx_table.pptx",)),
+              ("ms_modern.xlsx_extractor", "read_xlsx", ("modern_ms/image_in_excel.xlsx", "modern_ms/mwe.xlsx")),
+              ("open_office.odt_extractor", "read_odt", ("open_office/sample_document.odt",)),
+              ("open_office.ods_extractor", "read_ods", ("open_office/sample_spreadsheet.ods",)),
+              ("open_office.odp_extractor", "read_odp", ("open_office/sample_presentation.odp",)),
+              ("open_office.odg_extractor", "read_odg", ("open_office/drawing.odg",)),
+              ("open_office.odf_extractor", "read_odf", ("open_office/formular.odf",)),
+              ("epub_extractor", "read_epub", ("epub/sample.epub",)))
+
+
+def _fixture(rel):
+    import os
+    import sharepoint2text
+    p = os.path.join(os.path.dirname(sharepoint2text.__file__), "tests", "resources", rel)
+    try:
+        with open(p, "rb") as fh:
+            return fh.read()
+    except OSError:
+        return None
+
+
+def _with_bomb_member(data):
+    """The same container plus one all-zero member of 3,000,000 bytes (entry compression ratio ~ 1000 > 500)."""
+    import zipfile
+    buf = io.BytesIO(data)
+    with zipfile.ZipFile(buf, "a", zipfile.ZIP_DEFLATED) as zf:
+        zf.writestr("zz_padding.bin", b"\0" * 3_000_000)
+    return buf.getvalue()
+
+
+class Monitor:
+    """Records, per container (ZipFile object and content digest), the order of `validate_zipfile` acceptances and member
+    accesses (`ZipFile.open`, which `read` / `extract` / `extractall` / `testzip` go through).  A member access on a container
+    that has not been accepted before -- neither this ZipFile object nor another ZipFile over the same bytes -- is a violation
+    of "checked before any member is decompressed"."""
+
+    def __init__(self):
+        self.events, self.violations = [], []
+        self.ok_objs, self.ok_keys = set(), set()
+        self._undo = []
+
+    @staticmethod
+    def _key(file):
+        import hashlib
+        import os
+        try:
+            if hasattr(file, "getvalue"):
+                data = file.getvalue()
+            elif isinstance(file, (str, bytes, os.PathLike)):
+                with open(file, "rb") as fh:
+                    data = fh.read()
+            else:
+                pos = file.tell()
+                file.seek(0)
+                data = file.read()
+                file.seek(pos)
+            return hashlib.sha1(data).hexdigest()[:12]
+        except Exception:  # noqa
+            return None
+
+    def __enter__(self):
+        import sys
+        import zipfile
+        from sharepoint2text.parsing.extractors.util import zip_bomb
+        mon = self
+        o_init, o_open = zipfile.ZipFile.__init__, zipfile.ZipFile.open
+
+        def init(zself, file, mode="r", *a, **k):
+            key = mon._key(file) if mode == "r" else None
+            zself._c11_key = key
+            zself._c11_mode = mode
+            o_init(zself, file, mode, *a, **k)
+            if mode == "r":
+                mon.events.append(("construct", key, id(zself)))
+
+        def zopen(zself, name, mode="r", *a, **k):
+            if getattr(zself, "_c11_mode", "r") == "r" and mode == "r":
+                key = getattr(zself, "_c11_key", None)
+                nm = getattr(name, "filename", name)
+                ok = id(zself) in mon.ok_objs or (key is not None and key in mon.ok_keys)
+                mon.events.append(("member-access", key, nm, "validated" if ok else "NOT-VALIDATED"))
+                if not ok:
+                    mon.violations.append((key, nm))
+            return o_open(zself, name, mode, *a, **k)
+
+        zipfile.ZipFile.__init__, zipfile.ZipFile.open = init, zopen
+        self._undo.append(lambda: (setattr(zipfile.ZipFile, "__init__", o_init), setattr(zipfile.ZipFile, "open", o_open)))
+        o_val = getattr(zip_bomb, "validate_zipfile", None)
+        if o_val is not None:
+            def validate(zf, *a, **k):
+                r = o_val(zf, *a, **k)
+                mon.ok_objs.add(id(zf))
+                mon._keep = getattr(mon, "_keep", []) + [zf]          # keep the object alive: ids must not be recycled
+                key = getattr(zf, "_c11_key", None)
+                if key is not None:
+                    mon.ok_keys.add(key)
+                mon.events.append(("validated", key, id(zf)))
+                return r
+            validate.__wrapped__ = o_val
+            holders = [m for m in list(sys.modules.values()) if getattr(m, "__name__", "").startswith("sharepoint2text")
+                       and getattr(m, "validate_zipfile", None) is o_val]
+            for m in holders:
+                m.validate_zipfile = validate
+            self._undo.append(lambda: [setattr(m, "validate_zipfile", o_val) for m in holders])
+        return self
+
+    def __exit__(self, *exc):
+        for u in reversed(self._undo):
+            u()
+        return False
+
+    def trace(self, n=8):
+        return [list(e) for e in self.events[:n]]
+
+
+def _run(fn, *args):
+    from sharepoint2text.parsing.exceptions import ExtractionZipBombError
+    try:
+        r = fn(*args)
+        if hasattr(r, "__next__"):
+            list(r)
+        return "returned"
+    except ExtractionZipBombError:
+        return "ExtractionZipBombError"
+    except Exception as e:  # noqa
+        return type(e).__name__
+
+
+ORDER_EXPECT = "validate_zipfile accepts the container (this ZipFile or one over the same bytes) before the first ZipFile.open/read"
+
+
+def _subjects():
+    """(target, label, callable, data) over every ZIP-container entry point of the package that exists in this tree."""
+    import importlib
+    out = []
+    for modname, fn, fixtures in EXTRACTORS:
+        try:
+            f = getattr(importlib.import_module("sharepoint2text.parsing.extractors." + modname), fn)
+        except Exception:  # noqa
+            continue
+        for rel in fixtures:
+            data = _fixture(rel)
+            if data is not None:
+                out.append((f"{modname}.py::{fn}", rel, (lambda b, f=f, rel=rel: f(io.BytesIO(b), rel.split("/")[-1])), data))
+    try:
+        import sharepoint2text as top                      # the public wrappers of the package root
+        for modname, fn, fixtures in EXTRACTORS:
+            w = getattr(top, fn, None)
+            data = _fixture(fixtures[0])
+            if callable(w) and data is not None:
+                out.append((f"__init__.py::{fn}", fixtures[0], (lambda b, w=w, rel=fixtures[0]: w(io.BytesIO(b), rel.split("/")[-1])), data))
+    except Exception:  # noqa
+        pass
+    try:
+        from sharepoint2text.parsing.extractors.util import encryption
+        for rel in ("open_office/sample_document.odt", "open_office/sample_spreadsheet.ods"):
+            data = _fixture(rel)
+            if data is not None and hasattr(encryption, "is_odf_encrypted"):
+                out.append(("encryption.py::is_odf_encrypted", rel, (lambda b: encryption.is_odf_encrypted(io.BytesIO(b))), data))
+    except Exception:  # noqa
+        pass
+    try:
+        from sharepoint2text.parsing.extractors.util.zip_context import ZipContext
+
+        def use_context(b):
+            ctx = ZipContext(io.BytesIO(b))
+            try:
+                for nm in sorted(ctx.namelist)[:2]:
+                    if not nm.endswith("/"):
+                        ctx.read_bytes(nm)
+            finally:
+                ctx.close()
+        data = _fixture("open_office/sample_document.odt")
+        if data is not None:
+            out.append(("zip_context.py::ZipContext", "open_office/sample_document.odt", use_context, data))
+    except Exception:  # noqa
+        pass
+    return out
+
+
+def _hinted_subjects(targets):
+    """Functions named by the static analysis (e.g. the function that constructs a container outside the guard module): called
+    with a stream of a well-formed container in the usual extractor signatures."""
+    import importlib
+    out = []
+    datas = [(rel, _fixture(rel)) for rel in ("open_office/sample_document.odt", "modern_ms/headings.docx", "epub/sample.epub")]
+    datas = [(r, d) for r, d in datas if d is not None] + [("synthetic two-member zip", _zip_bytes([("a.txt", b"hello"), ("b/c.xml", b"<x/>")]))]
+    for t in targets or []:
+        try:
+            rel, qual = t
+            obj = importlib.import_module(rel[:-3].replace("/", "."))
+            for part in qual.split("."):
+                obj = getattr(obj, part)
+        except Exception:  # noqa
+            continue
+        if not callable(obj) or isinstance(obj, type) or "." in qual:
+            continue
+        for r, d in datas:
+            def call(b, obj=obj, r=r):
+                last = None
+                for args in ((io.BytesIO(b),), (io.BytesIO(b), r.split("/")[-1])):
+                    try:
+                        res = obj(*args)
+                        if hasattr(res, "__next__"):
+                            list(res)
+                        return res
+                    except TypeError as e:
+                        last = e
+                if last is not None:
+                    raise last
+            out.append((f"{rel.split('/')[-1]}::{qual}", r, call, d))
+    return out
+
+
+def native_order(only=None, extra_subjects=()):
+    """Runs every ZIP-container entry point on a well-formed document and on the same document with a bomb member under the
+    event monitor.  Failure = a member access on a container nobody validated, or a bomb that does not come back as
+    ExtractionZipBombError."""
+    hinted = {id(x[2]) for x in extra_subjects}
+    for target, rel, call, data in list(extra_subjects) + _subjects():
+        if only and not any(o in target for o in only):
+            continue
+        for label, payload in (("well-formed document", data), ("same document plus a 3,000,000-byte all-zero member", None)):
+            if payload is None:
+                try:
+                    payload = _with_bomb_member(data)
+                except Exception:  # noqa
+                    continue
+            with Monitor() as mon:
+                res = _run(call, payload)
+            if mon.violations:
+                key, nm = mon.violations[0]
+                return {"target": target, "inputs": {"fixture": "tests/resources/" + rel, "case": label},
+                        "expected": ORDER_EXPECT,
+                        "observed": f"member `{nm}` opened on a container that was never validated ({len(mon.violations)} such access(es); "
+                                    f"call ended with {res}); first events: {mon.trace()}"}
+            if label != "well-formed document" and res != "ExtractionZipBombError" and id(call) not in hinted:
+                return {"target": target, "inputs": {"fixture": "tests/resources/" + rel, "case": label},
+                        "expected": "ExtractionZipBombError", "observed": res}
+    return None
+
+
+def _dirflag():
+    """Directory flag: must agree with ZipInfo.is_dir() of the real library."""
+    import zipfile
+    from sharepoint2text.parsing.extractors.util import zip_bomb
+    if not hasattr(zip_bomb, "_is_directory"):
+        return None
+    for name, attr in (("d/", 0), ("f.xml", 0x10), ("f.xml", 0), ("d/", 0x10), ("word/document.xml", 0x10 | (0o100644 << 16))):
+        zi = zipfile.ZipInfo(name)
+        zi.external_attr = attr
+        got = zip_bomb._is_directory(zi)
+        if got != zi.is_dir():
+            return {"target": "zip_bomb.py::_is_directory", "inputs": {"filename": name, "external_attr": attr},
+                    "expected": f"is_dir() == {zi.is_dir()}", "observed": f"_is_directory == {got}"}
+    return None
+
+
 def native_wrappers():
     """Position restore / close-on-failure / directory flag, on real zipfile objects."""
     import zipfile
     from sharepoint2text.parsing.extractors.util import zip_bomb
-    r0 = native_extractors()
+    r0 = native_extractors() or native_order()
     if r0 is not None:
         return r0
     good = _zip_bytes([("a.txt", b"hello"), ("d/", b"")])
@@ -156,14 +416,9 @@ def native_wrappers():
         if bio.tell() != 3:
             return {"target": "zip_bomb.py::validate_zip_bytesio", "inputs": {"case": label, "start_position": 3},
                     "expected": "stream position 3 after the call", "observed": f"position {bio.tell()} after {res}"}
-    # directory flag: must agree with ZipInfo.is_dir() of the real library
-    for name, attr in (("d/", 0), ("f.xml", 0x10), ("f.xml", 0), ("d/", 0x10), ("word/document.xml", 0x10 | (0o100644 << 16))):
-        zi = zipfile.ZipInfo(name)
-        zi.external_attr = attr
-        got = zip_bomb._is_directory(zi)
-        if got != zi.is_dir():
-            return {"target": "zip_bomb.py::_is_directory", "inputs": {"filename": name, "external_attr": attr},
-                    "expected": f"is_dir() == {zi.is_dir()}", "observed": f"_is_directory == {got}"}
+    r1 = _dirflag()
+    if r1 is not None:
+        return r1
     # close on failure
     closed = []
     orig = zipfile.ZipFile.close
@@ -185,9 +440,41 @@ def native_wrappers():
     return None
 
 
+def _family(req):
+    """Which native search answers an obligation: "order" (typestate / policy: event monitor), "propagate" (exception type at
+    the extractors), "predicate" (validate_zipfile and its helpers: boundary lattice), "all"."""
+    hint = req.get("extra") or {}
+    if isinstance(hint, dict) and hint.get("family"):
+        return hint["family"], hint
+    oid = req.get("obligation") or ""
+    if "/typestate#" in oid or "/policy#" in oid:
+        return "order", {}
+    if "/exc-ensures#" in oid:
+        parts = oid.split("/")
+        fq = parts[1] if len(parts) > 2 else ""
+        return "propagate", {"file": fq.split("::")[0], "function": fq.split("::")[-1].split(".")[0]}
+    if "zip_bomb.py::validate_zipfile/" in oid or "zip_bomb.py::_is_directory/" in oid or "zip_bomb.py::spec/" in oid:
+        return "predicate", {}
+    return "all", {}
+
+
 def find(req):
     tried = 0
-    r = native_wrappers()
+    fam, hint = _family(req)
+    if fam in ("order", "propagate"):
+        only = None
+        if fam == "propagate":
+            names = [x for x in (hint.get("file"), "::" + hint["function"] if hint.get("function") else None) if x]
+            mine = [t for (t, _r, _c, _d) in _subjects() if any(n in t for n in names)]
+            only = names if mine else None
+        extra = _hinted_subjects(hint.get("targets")) if isinstance(hint, dict) else []
+        r = (native_order(None, extra) if extra else None) or native_order(only) or (native_order() if only else None) or native_extractors()
+        if r is not None:
+            r.update(reproduced=True, found_by="runtime event monitor over the ZIP-container entry points")
+            return r
+        return {"reproduced": False, "note": "every ZIP-container entry point validates before the first member access and "
+                                             "answers a bomb member with ExtractionZipBombError"}
+    r = native_wrappers() if fam == "all" else _dirflag()
     if r is not None:
         r.update(reproduced=True, found_by="native wrapper cases")
         return r
